@@ -61,7 +61,8 @@ SCHEMA1 = {i: {"publish": ["ksk_current"], "sign": ["ksk_current"], "revoke": []
 SCHEMA2 = {i: {"publish": ["ksk_current", "ksk_next"], "sign": ["ksk_current", "ksk_next"], "revoke": []} for i in range(1, 10)}
 SCHEMA_UNPUBLISHED = {i: {"publish": ["ksk_current", "ksk_new"], "sign": ["ksk_new"], "revoke": []} for i in range(1, 10)}
 SCHEMA_DROP = {i: {"publish": ["ksk_next"], "sign": ["ksk_next"], "revoke": []} for i in range(1, 10)}
-SCHEMAS = {"one": SCHEMA1, "two": SCHEMA2, "unpublished": SCHEMA_UNPUBLISHED, "drop": SCHEMA_DROP}
+SCHEMA_SHORT = {1: {"publish": ["ksk_current"], "sign": ["ksk_current"], "revoke": []}}
+SCHEMAS = {"one": SCHEMA1, "two": SCHEMA2, "unpublished": SCHEMA_UNPUBLISHED, "drop": SCHEMA_DROP, "short": SCHEMA_SHORT}
 T0 = dt.datetime(2026, 1, 1, tzinfo=UTC)
 NOW = dt.datetime(2026, 1, 1, 12, tzinfo=UTC)
 import kskm.ksr.verify_policy as vp
@@ -357,6 +358,10 @@ for schema, why in (("unpublished", "the new SKR signs with a key that was never
     for existing in (None, OLD):
         go(dict(base1, schema=schema, why=why, out_existing=existing), "safety", "post-sign-failure")
 go(dict(base1, schema="unpublished", why="publish safety", via_main=True, out_existing=OLD), "safety-main", "post-sign-failure")
+# ---- D2. the schema has fewer slots than the KSR has bundles: not every requested bundle can be signed
+for existing in (None, OLD):
+    go(dict(base1, schema="short", why="the schema has no action for bundle 2", out_existing=existing), "schema-too-short", "post-sign-failure")
+    go(dict(base1, schema="short", prev=None, why="the schema has no action for bundle 2", out_existing=existing), "schema-too-short", "post-sign-failure")
 # ---- E. token faults at every position of the operation sequence
 KINDS = {"open": ["error"], "login": ["error"], "find": ["error", "missing", "duplicate"], "attr": ["error"], "sign": ["error", "corrupt", "truncate", "wrong-key", "wrong-hash"]}
 FAULT_BASES = [(base1, "one-signer"), (base2, "two-signers")]
